@@ -63,3 +63,6 @@ func VerifNewHealthHandler() *HealthHandler {
 func VerifNewServerHandlerWith(catLimiter, tailLimiter chan struct{}) *ServerHandler {
 	return NewServerHandler(&user.User{Name: "u"}, catLimiter, tailLimiter)
 }
+
+// VerifPending: bytes of a message that did not fit into the previous Read.
+func (h *ServerHandler) VerifPending() int { return h.readBuf.Len() }
